@@ -166,6 +166,7 @@ def render(spec, name):
   L = [f'class {name}( Component ):', '  def construct( s ):']
   inputs = []
   for j, ch in enumerate(spec['chains']):
+    if ch.get('dropped'): continue
     tv = f'T{j}'
     L.append(f'    {tv} = {tdecl(ch["T"])}')
     if ch.get('share') is None:
@@ -189,7 +190,9 @@ def render(spec, name):
     L.append(f'    s.out{j} //= {src}')
   for i, ex in enumerate(spec['extras']):
     k = ex[0]
-    if k == 'never':
+    if k == 'none':
+      pass
+    elif k == 'never':
       L.append(f'    s.never{i} = Wire( {tdecl(ex[1])} )')
     elif k == 'konst':
       L.append(f'    s.konst{i} = OutPort( {tdecl(ex[1])} )')
@@ -574,51 +577,53 @@ def trace_stats(samples):
   return never, revisit
 
 # ----------------------------------------------------------------------------- shrinking (python reference steers)
-def failing(spec, seq_full, reset, name):
-  """re-run; returns (mismatch list, src, seq) or None if this variant does not fail / does not build"""
+def failing(spec, seqd, reset, name):
+  """re-run a variant; seqd = per cycle {(attr, idx): value}.  Returns (findings, src, inputs, seq) if it still fails"""
   try:
     src, inputs = render(spec, name)
-    seq = [r[:len(inputs)] for r in seq_full]
+    seq = [[row[(a, i)] for (a, i, _) in inputs] for row in seqd]
     res = run_design(src, name, inputs, seq, reset, tag='s')
     an = analyse(res)
   except Exception:
     return None
   bad = [p for p in an['problems'] if p[0] == 'header'] or an.get('mismatches') or an.get('textwave_mismatches')
-  return (bad, src, seq) if bad else None
+  return (bad, src, inputs, seq) if bad else None
 
-def shrink(spec, inputs, seq, reset, name, budget=40):
+def shrink(spec, inputs, seq, reset, name, budget=60):
+  """greedy: fewest cycles first, then drop extras, stages and whole chains while the python reference reader still
+  sees a disagreement.  Names are index-based, so pieces are blanked rather than renumbered."""
   import copy
-  # inputs are re-ordered when chains/extras are removed, so the shrinker drives every input from its own column
-  # of a re-generated sequence: keep it simple — only remove pieces that do not own inputs, and truncate cycles
-  best = (spec, seq)
+  seqd = [{(a, i): v for (a, i, _), v in zip(inputs, row)} for row in seq]
+  state = {'budget': budget}
   def attempt(sp, sq):
-    nonlocal budget
-    if budget <= 0: return None
-    budget -= 1
+    if state['budget'] <= 0: return None
+    state['budget'] -= 1
     return failing(sp, sq, reset, name)
-  cur = attempt(spec, seq)
+  cur = attempt(spec, seqd)
   if cur is None: return None
-  # 1. truncate cycles
-  lo = 1
-  for n in range(1, len(seq) + 1):
-    r = attempt(spec, seq[:n])
-    if r: seq, cur = seq[:n], r; break
-    if budget <= 0: break
-  # 2. drop extras without inputs, then stages
+  for n in range(0, len(seqd)):
+    r = attempt(spec, seqd[:n])
+    if r: seqd, cur = seqd[:n], r; break
   changed = True
-  while changed and budget > 0:
+  while changed and state['budget'] > 0:
     changed = False
     for i in range(len(spec['extras']) - 1, -1, -1):
-      if spec['extras'][i][0] == 'listports': continue
-      sp = copy.deepcopy(spec); del sp['extras'][i]
-      r = attempt(sp, seq)
+      if spec['extras'][i][0] == 'none': continue
+      sp = copy.deepcopy(spec); sp['extras'][i] = ('none',)
+      r = attempt(sp, seqd)
       if r: spec, cur, changed = sp, r, True
-    for j in range(len(spec['chains'])):
-      for i in range(len(spec['chains'][j]['stages']) - 1, -1, -1):
+    for j in range(len(spec['chains']) - 1, -1, -1):
+      ch = spec['chains'][j]
+      if ch.get('dropped'): continue
+      if not any(c.get('share') == j and not c.get('dropped') for c in spec['chains']):
+        sp = copy.deepcopy(spec); sp['chains'][j]['dropped'] = True
+        r = attempt(sp, seqd)
+        if r: spec, cur, changed = sp, r, True; continue
+      for i in range(len(ch['stages']) - 1, -1, -1):
         sp = copy.deepcopy(spec); del sp['chains'][j]['stages'][i]
-        r = attempt(sp, seq)
+        r = attempt(sp, seqd)
         if r: spec, cur, changed = sp, r, True
-  return spec, seq, cur
+  return spec, cur
 
 # ----------------------------------------------------------------------------- main loop
 def check_batch(ctx, batch):
@@ -638,14 +643,17 @@ def check_batch(ctx, batch):
     an = b['an']
     replay = {'design_source': b['src'], 'top': b['name'], 'inputs': [list(x) for x in b['inputs']], 'input_sequence': b['seq'],
               'sim_reset_first': b['reset'], 'coq_verdict_bits': code,
-              'mismatches': an.get('mismatches', [])[:6]}
+              'mismatches': an.get('mismatches', [])[:6], 'vcd_file_head': b['vcd_head'],
+              'note': 'net order inside VcdGenerationPass follows set iteration over signal objects (address based); a re-run can '
+                      'order the nets differently, the recorded file head is what was judged'}
     if code & 7:
       sh = None
       try: sh = shrink(b['spec'], b['inputs'], b['seq'], b['reset'], b['name'])
       except Exception: pass
       if sh:
-        spec2, seq2, (bad2, src2, seq2b) = sh
-        replay.update(design_source=src2, input_sequence=seq2b, mismatches=bad2[:6], shrunk_from_cycles=len(b['seq']))
+        spec2, (bad2, src2, inputs2, seq2) = sh
+        replay.update(design_source=src2, inputs=[list(x) for x in inputs2], input_sequence=seq2, mismatches=bad2[:6],
+                      shrunk_from_cycles=len(b['seq']))
       first = (replay['mismatches'] or [{}])[0]
       ctx.violation(f'C16:vcd-replay:{h}',
                     f'the .vcd read back by the Coq reader differs from the simulator (verdict bits {code}: 1=unparsable line, '
@@ -663,7 +671,7 @@ def run(ctx):
   import pymtl3
   rng = ctx.rng
   quick = ctx.tier == 'quick'
-  ndesigns = 60 if quick else 700
+  ndesigns = 120 if quick else 2500
   batch_size = 64 if quick else 100
   batch, total_cells, tn, trv = [], 0, 0, 0
   def flush():
@@ -714,7 +722,8 @@ def run(ctx):
       ctx.sample({'design': src[len(PRELUDE):], 'signals': len(res['sigs']), 'cycles': len(res['samples']),
                   'nets(sizes)': an['net_sizes'], 'value_change_lines': changes, 'sim_reset_first': reset,
                   'vcd_body_head': [v for _, v in an['tokens'][:14]]})
-    batch.append(dict(spec=spec, name=name, src=src, inputs=inputs, seq=seq, reset=reset, res=None, an=an))
+    batch.append(dict(spec=spec, name=name, src=src, inputs=inputs, seq=seq, reset=reset, an=an,
+                      vcd_head=res['vcd_text'][res['vcd_text'].index('$scope'):][:3000]))
     if len(batch) >= batch_size: flush()
   flush()
   ctx.extra['signal_cycle_values_compared'] = total_cells
